@@ -82,3 +82,10 @@ CHECKS["C04"] = dict(
           "LC_ALL=C and UTF-8 mode off; the trace spec checks that each new text is the old one outside the matched spans (clauses line-structure, unmatched-line-changed, "
           "text-outside-span-changed); unconfigured files are compared byte for byte with mtime; both locales must give identical bytes."),
     note=_NOTE, ref="DESIGN.md section 6, C04")
+CHECKS["C13"] = dict(
+    technique="TLA+ spec (BVRewrite: ApplyHunks, Rewrite) model-checked with TLC + trace validation of printed --dry diffs against the real run's result",
+    text=("Design level: MC_C03 (DiffRoundTrip: a line diff of old and new applied with the strict ApplyHunks gives new; rewrite invariants). Conformance: for each generated project "
+          "(consistent line endings; stale and partial-only files; hostile text; commit on with a fake git; legacy patterns) `update --dry` is run, every file is compared byte for byte "
+          "and by mtime, the fake VCS log must be free of mutating commands and hooks, then the real `update` runs with the same arguments; the printed diff is parsed syntactically into "
+          "hunks and the trace spec applies them to the old text and compares with what the real run wrote; a dry exit 0 requires a real exit 0 and the same announced version."),
+    note=_NOTE, ref="DESIGN.md section 6, C13")
